@@ -79,11 +79,22 @@ func (s *sim) precond(a Action) error {
 		if s.boot.act.OneShell && s.boot.ready > 0 {
 			return fmt.Errorf("listener is expected to be closed")
 		}
+	case "preconnect":
+		if !up || len(s.pre) >= 4 {
+			return fmt.Errorf("not up or enough idle connections")
+		}
+		if s.boot.act.OneShell && s.boot.ready > 0 {
+			return fmt.Errorf("listener is expected to be closed")
+		}
 	case "get_c", "probe", "open_in", "open_out", "open_io":
 		if !up {
 			return fmt.Errorf("not up")
 		}
-		if s.boot.act.OneShell && s.boot.ready > 0 {
+		if a.Pre {
+			if a.K == "get_c" || a.K == "probe" || len(s.pre) == 0 {
+				return fmt.Errorf("no idle connection to use")
+			}
+		} else if s.boot.act.OneShell && s.boot.ready > 0 {
 			return fmt.Errorf("listener is expected to be closed")
 		}
 		if a.K == "open_in" || a.K == "open_out" {
@@ -203,6 +214,14 @@ func (s *sim) apply(a Action) {
 		s.getC(a)
 	case "burst_c":
 		s.burstC(a)
+	case "preconnect":
+		c, err := s.dial("")
+		if err != nil {
+			s.harnessErr = "dial failed although the listener should be open: " + err.Error()
+			return
+		}
+		s.pre = append(s.pre, c)
+		s.probes["idle_connections_made"]++
 	case "regen_cache":
 		// another instance (or the operator) replaces the cache file while this
 		// server is running: what is served must stay what is advertised
@@ -531,10 +550,20 @@ func (s *sim) open(a Action) {
 	} else {
 		ss = s.sess[a.S]
 	}
-	c, err := s.dial("")
-	if err != nil {
-		s.harnessErr = "dial failed although the listener should be open: " + err.Error()
-		return
+	var c *client
+	if a.Pre {
+		c = s.pre[0]
+		s.pre = s.pre[1:]
+		s.probes["request_on_idle_connection"]++
+		if s.boot.act.OneShell && s.boot.ready > 0 {
+			s.probes["request_on_old_connection_after_listener_closed"]++
+		}
+	} else {
+		var err error
+		if c, err = s.dial(""); err != nil {
+			s.harnessErr = "dial failed although the listener should be open: " + err.Error()
+			return
+		}
 	}
 	if s.boot.pin == "" {
 		s.boot.pin = c.pin
@@ -744,7 +773,20 @@ func (s *sim) checkOneShell(a Action) {
 		s.violate("C12", "no-new-callbacks", "callback help offered again after the one shell ended", "-one-shell: %d one-liners were printed after the shell had gone", b.helpAfter)
 		return
 	}
-	if !doRet && s.nowNanos()-b.goneAt > int64(2*time.Second) {
+	lingering := len(s.pre) > 0
+	for _, ss := range s.sess {
+		if !ss.closed {
+			lingering = true
+		}
+	}
+	for _, c := range s.clients {
+		c.mu.Lock()
+		if !c.closed {
+			lingering = true
+		}
+		c.mu.Unlock()
+	}
+	if !doRet && !lingering && s.nowNanos()-b.goneAt > int64(12*time.Second) {
 		s.violate("C12", "exits-after-shell", "server does not finish after the one shell ended",
 			"-one-shell: %d ms after the shell had gone Server.Do has not returned", (s.nowNanos()-b.goneAt)/1e6)
 		return
